@@ -105,6 +105,14 @@ def check_chain(name, start, end, month_offset):
         if as_date(c.expiry) != ref_expiry(name, y, m):
             msgs.append("chain %s lists %s expiring %s, rule says %s" % (name, c.symbol, c.expiry, ref_expiry(name, y, m)))
             break
+    if start.day == 1 and end.month == 12 and end.day == 31 and month_offset == 0:
+        # the same span given as 'YYYY-MM' strings must list the same contracts
+        try:
+            c2 = K.FutureChain(cls, start.strftime("%Y-%m"), end.strftime("%Y-%m-%d"))
+            if [c.symbol for c in c2.contracts] != [c.symbol for c in cs]:
+                msgs.append("chain %s built from strings %s..%s differs from the one built from datetimes" % (name, start.strftime("%Y-%m"), end.date()))
+        except Exception as ex:
+            msgs.append("chain %s from string dates raised %r" % (name, ex))
     # completeness: one contract per listing period (quarter end for ES/NK/Treasuries, month end for VX)
     # whose period end lies inside [start, end], no more, no less
     want = []
@@ -171,7 +179,12 @@ def _work(unit):
         for (y, L, mo) in spans(tier):
             start = datetime(y, 1 + mo, 1)
             end = datetime(y + L - 1, 12, 31)
-            for month_offset in (0, 1):
+            variants = [(start, end)]
+            if L <= 2:
+                # spans that start / end exactly on a listing-period end, or in the middle of a period
+                variants += [(datetime(y, 3, 31), datetime(y + L - 1, 9, 30)), (datetime(y, 3 + mo, 15), datetime(y + L - 1, 11, 15))]
+            for (start, end) in variants:
+              for month_offset in (0, 1):
                 msgs, n = check_chain(name, start, end, month_offset)
                 out["evaluations"] += 1
                 out["contracts_in_chains"] += n
